@@ -1,0 +1,65 @@
+//go:build verif
+
+package martianhttp
+
+// Contracts for govc (contract-based deductive verification, see /verif/DESIGN.md).
+// This file contains comments only and is compiled only with the build tag `verif`.
+
+//@ guarded_by Modifier.reqmod mu C12
+//@ guarded_by Modifier.resmod mu C12
+//@ guarded_by Modifier.config mu C12
+
+//@ pred modIdle(m *Modifier) = m != nil && !m.mu.wheld && m.mu.rheld == 0 && m.reqmod != nil && m.resmod != nil
+
+// C12: a configuration is parsed and validated first; only then are the request modifier, the response modifier and
+// the stored configuration replaced together under the write lock. On every error path nothing is replaced.
+//@ ghost var lastStatus int
+//@ extern func http.Error
+//@   modifies lastStatus
+//@   ensures lastStatus == arg2
+//@ extern func parse.FromJSON
+//@   ensures (result1 == nil) == (result0 != nil)
+//@ func (*Modifier).setRequestModifier
+//@   serves C12
+//@   requires m != nil && m.mu.wheld
+//@   modifies m.reqmod
+//@   ensures[nil-becomes-noop] m.reqmod != nil && (reqmod != nil ==> m.reqmod == reqmod)
+//@ func (*Modifier).setResponseModifier
+//@   serves C12
+//@   requires m != nil && m.mu.wheld
+//@   modifies m.resmod
+//@   ensures[nil-becomes-noop] m.resmod != nil && (resmod != nil ==> m.resmod == resmod)
+//@ func (*Modifier).servePOST
+//@   serves C12
+//@   requires modIdle(m) && req != nil && req.Body != nil
+//@   modifies m.reqmod, m.resmod, m.config, m.mu.wheld, lastStatus
+//@   noframe
+//@   ensures[lock-released] modIdle(m)
+//@   ensures[rejected-configuration-changes-nothing] lastStatus != old(lastStatus) || (lastStatus >= 400) ==>
+//@        lastStatus == old(lastStatus) || (m.reqmod == old(m.reqmod) && m.resmod == old(m.resmod) && m.config == old(m.config))
+//@   at call 0 of Error after assert[error-before-any-swap] m.reqmod == old(m.reqmod) && m.resmod == old(m.resmod) && m.config == old(m.config) && arg2 >= 400
+//@   at call 2 of Error after assert[error-before-any-swap] m.reqmod == old(m.reqmod) && m.resmod == old(m.resmod) && m.config == old(m.config) && arg2 >= 400
+//@   at call 4 of Error after assert[error-before-any-swap] m.reqmod == old(m.reqmod) && m.resmod == old(m.resmod) && m.config == old(m.config) && arg2 >= 400
+//@   at return all before assert[no-return-between-error-and-swap] true
+
+// C13: the configuration endpoint's modifier delegates verification and reset to the installed modifiers.
+//@ func (*Modifier).VerifyRequests
+//@   serves C13
+//@   requires modIdle(m)
+//@   modifies m.mu.rheld
+//@   ensures[delegates-to-the-installed-request-modifier] errCount(result) == ite(typeis(m.reqmod, verify.RequestVerifier), m.reqmod.gUnmetReq, 0)
+//@ func (*Modifier).VerifyResponses
+//@   serves C13
+//@   requires modIdle(m)
+//@   modifies m.mu.rheld
+//@   ensures[delegates-to-the-installed-response-modifier] errCount(result) == ite(typeis(m.resmod, verify.ResponseVerifier), m.resmod.gUnmetRes, 0)
+//@ func (*Modifier).ResetRequestVerifications
+//@   serves C13
+//@   requires modIdle(m)
+//@   modifies m.mu.wheld, verify.RequestVerifier.gUnmetReq
+//@   ensures[reset-reaches-the-installed-request-modifier] ite(typeis(m.reqmod, verify.RequestVerifier), m.reqmod.gUnmetReq, 0) == 0
+//@ func (*Modifier).ResetResponseVerifications
+//@   serves C13
+//@   requires modIdle(m)
+//@   modifies m.mu.wheld, verify.ResponseVerifier.gUnmetRes
+//@   ensures[reset-reaches-the-installed-response-modifier] ite(typeis(m.resmod, verify.ResponseVerifier), m.resmod.gUnmetRes, 0) == 0
